@@ -319,6 +319,68 @@ class ReplaceNetwork(Contract):
             yield ("WF preserved", wf(F, inp["sc"]))
 
 
+for _n in (0, 1, 2):
+
+    @register
+    class GenerateSmallPool(Contract):
+        prop = "C09"
+        target = SQ + "generate_object_id"
+        case = "generate, add %d object(s) with arbitrary ids, generate" % _n
+        n = _n
+        describe = "generated ids are never used by a contained object and never repeat, whatever ids are added in between"
+
+        def build(self, F):
+            sc = F.new(Scenario, 0.1)
+            return {"sc": sc, "new": [new_id(F, "obj%d" % i) for i in range(self.n)], "args": []}
+
+        def invoke(self, F, inp):
+            sc = inp["sc"]
+            g1 = F.method(sc, "generate_object_id")
+            added = []
+            for i, n in enumerate(inp["new"]):
+                r = F.attempt(lambda n=n, i=i: F.method(sc, "add_objects", mk_static(F, n) if i == 0 else mk_env(F, n)))
+                added.append(r.exc is None)
+            g2 = F.method(sc, "generate_object_id")
+            g3 = F.method(sc, "generate_object_id")
+            return [g1, g2, g3], added
+
+        def post(self, F, inp, out):
+            yield ("raises nothing", out.exc is None)
+            if out.exc is None:
+                g, added = out.value
+                g = [T(x) for x in g]
+                used = [T(n) for n, ok in zip(inp["new"], added) if ok]
+                yield ("ids generated after the additions are unused", conj(z3.And(x >= 1, conj(x != u for u in used)) for x in g[1:]))
+                yield ("never the same id twice", z3.And(g[0] != g[1], g[0] != g[2], g[1] != g[2]))
+
+
+@register
+class EraseWithUnreferencedMembers(Contract):
+    prop = "C09"
+    target = SQ + "erase_lanelet_network"
+    case = "network with a sign and a light that no lanelet references"
+    describe = "erasing / replacing the network releases every id of the old network, also of signs and lights no lanelet references"
+
+    def build(self, F):
+        sc, ids, objs = populated(F)
+        s2, l2 = new_id(F, "id_sign2"), new_id(F, "id_light2")
+        F.assume(z3.And(T(s2) != T(l2), conj(z3.And(T(s2) != T(v), T(l2) != T(v)) for v in ids.values())))
+        objs["sign2"], objs["light2"] = mk_sign(F, s2), mk_light(F, l2)
+        F.ok(lambda: F.method(sc, "add_objects", objs["sign2"]))
+        F.ok(lambda: F.method(sc, "add_objects", objs["light2"]))
+        return {"sc": sc, "ids": ids, "objs": objs, "args": [sc]}
+
+    def invoke(self, F, inp):
+        F.method(inp["sc"], "erase_lanelet_network")
+        return [F.attempt(lambda k=k: F.method(inp["sc"], "add_objects", inp["objs"][k])) for k in ("light2", "sign2", "light", "sign")]
+
+    def post(self, F, inp, out):
+        yield ("raises nothing", out.exc is None)
+        if out.exc is None:
+            yield ("every removed sign and light can be added again", all(r.exc is None for r in out.value))
+            yield ("WF preserved", wf(F, inp["sc"]))
+
+
 @register
 class GenerateObjectId(Contract):
     prop = "C09"
